@@ -58,6 +58,9 @@ func (s *Suite) Load() bool {
 
 // Run explores one harness and reports.
 func (s *Suite) Run(h Harness) *gose.Stats {
+	if only := os.Getenv("VERIF_ONLY"); only != "" && !strings.Contains(h.Func, only) {
+		return &gose.Stats{}
+	}
 	opts := h.Opts
 	if opts.Timeout == 0 {
 		opts.Timeout = 20 * time.Second
